@@ -1,7 +1,7 @@
 # Builds the real library straight from $(VERIF_REPO)/src (default /repo) in several
 # instrumentation modes and links the check harnesses against it.  All output under build/.
 VERIF_REPO ?= /repo
-B ?= build
+B ?= $(CURDIR)/build
 CXX := clang++
 SRC := $(VERIF_REPO)/src
 
@@ -57,6 +57,8 @@ endef
 $(foreach m,$(MODES),$(eval $(call MODE_RULES,$(m))))
 
 .SECONDARY:
+# convenience: `make build/asan/x` means `make $(B)/asan/x` (dependency files use the absolute spelling)
+build/%: $(B)/% ;
 .PHONY: setup clean
 setup:
 	python3 bin/verif setup
